@@ -495,6 +495,39 @@ def _r7(model, res, c, g):
                           'a cell reference must be upper-cased before it is decomposed and reported (label=%r, row part from %r): '
                           'a1 and A1 would be different cells for a listener' % (label, rl), func=key[1])
     res.soft_floor('cell traces for case', n, 1)
+    # ... and on constant spellings (a scanner without a regular expression is followed on constants only)
+    n_const = 0
+    for lab in ('a1', '$b$7', 'Ab12', 'xfd$1048576'):
+        try:
+            outs_c, _k = c10.run_callback(ctx, 'call_cell_value', lambda interp, lab=lab: [Const(lab)], listener_script=lambda: [])
+        except Unmodelled as e:
+            res.ob('R7', fmt(key), {'reference': lab}, True, 'undecided: %s' % e)
+            continue
+        outs_c = [o for o in outs_c if not o.imprecise]
+        if len(outs_c) != 1 or outs_c[0].kind != 'return' or not outs_c[0].events:
+            res.ob('R7', fmt(key), {'reference': lab}, True, 'undecided: %s' % H.describe(outs_c)[:1])
+            continue
+        cell = outs_c[0].events[0][1][0]
+        if not isinstance(cell, Obj):
+            res.ob('R7', fmt(key), {'reference': lab}, True, 'undecided: payload %r' % (cell,))
+            continue
+        got = [cell.attrs.get('label')]
+        for part in ('row', 'col'):
+            pv_ = cell.attrs.get(part)
+            got.append(pv_.attrs.get('label') if isinstance(pv_, Obj) else None)
+        if not all(isinstance(x, Const) and isinstance(x.value, str) for x in got):
+            res.ob('R7', fmt(key), {'reference': lab}, True, 'undecided: %r' % (got,))
+            continue
+        n_const += 1
+        want_col = ''.join(ch for ch in lab.upper() if ch.isalpha())
+        ok = got[0].value == lab.upper() and got[2].value == want_col
+        res.ob('R7', fmt(key), {'reference': lab, 'label': got[0].value, 'column': got[2].value}, ok)
+        if not ok:
+            res.violation('R7', '%s:%s:label-case:constant' % key, m.where(f),
+                          'the reference %s reaches the listener as label %r with column %r; a cell reference is case-insensitive: the payload '
+                          'must be %r with column %r whatever the spelling' % (lab, got[0].value, got[2].value, lab.upper(), want_col),
+                          case={'reference': lab}, func=key[1])
+    res.soft_floor('constant spellings of a cell reference decided', n_const, 3)
     outs, (m, f, key) = c10.run_callback(ctx, 'call_range_value', lambda interp: [Sym('str', 'S'), Sym('str', 'E')], listener_script=lambda: [])
     n = 0
     for o in outs:
